@@ -723,6 +723,7 @@ func (e *c14Env) explain(pc vlib.Caught) string {
 // run + oracle
 
 func c14Run(c c14Case) (fail *vlib.Failure, herr error) {
+	defer vlib.Guard("C14", c, nil)()
 	_, fail, herr = c14RunEnv(c)
 	return
 }
